@@ -623,11 +623,7 @@ func classifyB(in *instance, f *family, e int, sp occSpec, got [NH]int, kind str
 		if f.kind == "lifecycle" {
 			sub = "lifecycle-off-noop"
 		}
-		args := "1"
-		if len(o.H) > 1 {
-			args = "2+"
-		}
-		return sub, map[string]any{"family": f.mOff, "off_args": args},
+		return sub, map[string]any{"family": f.mOff},
 			fmt.Sprintf("%s(%s) removed nothing (the observations are explained by treating the call as a no-op); %s", f.mOff, strings.Join(hnames(o.H), ","), detail)
 	}
 	// (1) one single call was a no-op
